@@ -98,4 +98,7 @@ PROPS = {
         'trusted': SPECTRUM_TRUST[:2],
         'extra': [{'name': 'oms_partition', 'kind': 'bounded', 'script': 'bounded/oms_partition.py', 'timeout': 1200}],
     },
+    'C09': {'level': 'proof', 'claim': 'uc', 'level_note': 'uc', 'trusted': NUMPY_TRUST, 'not_applicable': 'under construction'},
+    'C10': {'level': 'proof', 'claim': 'uc', 'level_note': 'uc', 'trusted': NUMPY_TRUST, 'not_applicable': 'under construction'},
+    'C08': {'level': 'proof', 'claim': 'uc', 'level_note': 'uc', 'trusted': NUMPY_TRUST, 'not_applicable': 'under construction'},
 }
